@@ -111,6 +111,9 @@ def _plugin_child(world, spec, out_path, trace_path):
     import pytest
 
     os.chdir(world)
+    if spec.get("from_parent"):
+        # the user starts pytest one directory above the project and names the project directory on the command line
+        os.chdir(os.path.dirname(world))
     sys.dont_write_bytecode = not spec.get("bytecode")
     _base_env(spec.get("env"))
     if spec.get("bytecode"):
@@ -174,6 +177,8 @@ def _plugin_child(world, spec, out_path, trace_path):
     if flags is not None:
         argv.append("--inline-snapshot=" + flags)
     argv += spec.get("argv", [])
+    if spec.get("from_parent"):
+        argv.append(os.path.basename(world))
     argv += ["-q", "-rA", "--tb=short"]
     rc = None
     try:
